@@ -86,8 +86,41 @@ def g_param(xs: list[fp.Real]) -> fp.Real:
 @fp.fpy
 def g_pure(xs: list[fp.Real]) -> fp.Real:
     return xs[0] + 1
+
+@fp.fpy
+def p_direct(xss: list[list[fp.Real]]) -> fp.Real:
+    xss[0][0] = 5
+    return 0
+
+@fp.fpy
+def p_row(xss: list[list[fp.Real]]) -> fp.Real:
+    row = xss[0]
+    row[0] = 5
+    return 0
+
+@fp.fpy
+def p_store(xss: list[list[fp.Real]]) -> fp.Real:
+    t = [[0.0]]
+    t[0] = xss[0]
+    t[0][0] = 5
+    return 0
+
+@fp.fpy
+def p_lit(xss: list[list[fp.Real]]) -> fp.Real:
+    t = [xss[0]]
+    t[0][0] = 5
+    return 0
+
+@fp.fpy
+def p_fresh(xss: list[list[fp.Real]]) -> fp.Real:
+    t = [[0.0]]
+    t[0] = [xss[0][0]]
+    t[0][0] = 5
+    return t[0][0]
 '''
-HELPER_NAMES = ('g_alias', 'g_row', 'g_param', 'g_pure')
+HELPER_NAMES = ('g_alias', 'g_row', 'g_param', 'g_pure',
+                'p_direct', 'p_row', 'p_store', 'p_lit', 'p_fresh')
+POKES = ('p_direct', 'p_row', 'p_store', 'p_lit', 'p_fresh')
 
 C_SMALL_RTZ = 'fp.MPFloatContext(3, fp.RM.RTZ)'
 C_SMALL_RAZ = 'fp.MPFloatContext(3, fp.RM.RAZ)'
@@ -159,6 +192,25 @@ FAMILIES = (
         maxdepth=1,
         sizes={'quick': (4, 5), 'thorough': (6, None)},
         aim='row of a nested list taken into a local and written; callee that writes a row of its argument'),
+    Family(
+        name='poke', decorator='@fp.fpy', params='u: fp.Real', argnames=('u',),
+        atoms=(
+            (A('xss = [[u, 2], [3, 4]]', 'u', 'xss'),)
+            + tuple(A(f't = {p}(xss)', 'xss', 't') for p in POKES)
+            + tuple(A(f'{p}(xss)', 'xss', '') for p in POKES)
+            + (A('a = xss[0][0]', 'xss', 'a'),)
+        ),
+        wraps=(W('if1', 'if u > 0:', 'u'),),
+        returns=(A('return xss[0][0]', 'xss'), A('return a', 'a')),
+        maxdepth=1,
+        sizes={'quick': (4, None), 'thorough': (5, None)},
+        aim='helper called ONLY for its effect on a nested list (result bound to an unread name, or a bare '
+            'expression statement) and the list read back afterwards; the helper writes a row of its argument '
+            'directly (xss[0][0] = v), through a plain row alias (row = xss[0]; row[0] = v), through a row it '
+            'stored into a list it built itself and then writes one level below the slot (t = [[0.0]]; '
+            't[0] = xss[0]; t[0][0] = v), through a row held in a literal (t = [xss[0]]; t[0][0] = v), or -- the '
+            'control -- only writes storage it built from fresh values: deleting the call is right only for the '
+            'control'),
     Family(
         name='ctx', decorator='@fp.fpy', params='u: fp.Real', argnames=('u',),
         atoms=(
